@@ -138,6 +138,15 @@ func (g *hgen) badSig(owner uint32) Sig {
 // faultyMsgs: what one faulty peer f can send with its own key.
 func (g *hgen) faultyMsgs(f, p uint32, count int) {
 	c := g.c
+	start := len(g.h.Ops)
+	defer func() {
+		// a third of the faulty peer's messages carry a defective own signature
+		for k := start; k < len(g.h.Ops); k++ {
+			if op := &g.h.Ops[k]; op.Kind != "proposal" && op.Sender == f && c.Intn(3) == 0 {
+				op.Sig = g.ownSigVariant(f, op.Claimed, op.MsgHash)
+			}
+		}
+	}()
 	for ; count > 0; count-- {
 		empty := c.Intn(5) == 0
 		switch c.Intn(5) {
@@ -177,6 +186,36 @@ func (g *hgen) faultyMsgs(f, p uint32, count int) {
 			g.h.Ops = append(g.h.Ops, Op{Kind: "commit", Sender: f, Claimed: o, Proposer: p, ForEmpty: empty, Sig: Sig{Key: g.pos[o]}})
 		}
 	}
+}
+
+// ownSigVariant: the ways a message's own mandatory signature can be wrong (and, once in eight,
+// right): absent on the wire (JSON null / member missing), empty, one byte, garbage of valid length,
+// a valid signature by another peer (the one the message names, or any), a valid signature of the
+// sender over another digest.
+func (g *hgen) ownSigVariant(sender, claimed uint32, msgHash int) Sig {
+	c := g.c
+	switch c.Intn(9) {
+	case 0:
+		return Sig{Key: sigNil}
+	case 1:
+		return Sig{Key: sigMissing}
+	case 2:
+		return Sig{Key: sigEmpty}
+	case 3:
+		return Sig{Key: sigOneByte}
+	case 4:
+		return Sig{Key: sigGarbage}
+	case 5:
+		if k, ok := g.pos[claimed]; ok && claimed != sender {
+			return Sig{Key: k, Hash: msgHash}
+		}
+		return Sig{Key: (g.pos[sender] + 1) % len(g.h.Peers), Hash: msgHash}
+	case 6:
+		return Sig{Key: (g.pos[sender] + 1 + c.Intn(len(g.h.Peers)-1)) % len(g.h.Peers), Hash: msgHash}
+	case 7:
+		return Sig{Key: g.pos[sender], Hash: (msgHash + 1 + c.Intn(2)) % 3}
+	}
+	return Sig{Key: g.pos[sender], Hash: msgHash}
 }
 
 func (g *hgen) chaosOp() Op {
@@ -260,7 +299,7 @@ func genHist(c *hx.Ctx, i int) *Hist {
 	if c.Intn(10) == 0 && len(h.Endorsers) > 1 {
 		h.Endorsers = append(h.Endorsers, h.Endorsers[0])
 	}
-	mode := i % 6
+	mode := i % 7
 	// the cast: at most 8 indices (bounds the number of keys of the endorse-signature map, and with
 	// it the number of iteration orders the correspondence has to consider)
 	maxCast := 8
@@ -354,6 +393,51 @@ func genHist(c *hx.Ctx, i int) *Hist {
 				}
 			}
 		}
+	case 6:
+		// a round short of the quorum; faulty peer f supplies the missing committers / endorsers by
+		// messages naming them, each with a defective own signature (must all be dropped)
+		h.Label = "own-signature-variants"
+		var others []uint32
+		for _, x := range h.Peers {
+			if x != p {
+				others = append(others, x)
+			}
+		}
+		c.Rng.Shuffle(len(others), func(a, b int) { others[a], others[b] = others[b], others[a] })
+		f := others[0]
+		honest := c.Intn(q - 1) // 0..q-2 honest signers besides the proposer
+		if honest > len(others)-1 {
+			honest = len(others) - 1
+		}
+		viaEndorse := c.Intn(3) == 0
+		if c.Intn(2) == 0 {
+			h.Ops = append(h.Ops, g.proposal(p, 0))
+		}
+		for _, x := range others[1 : 1+honest] {
+			if viaEndorse {
+				h.Ops = append(h.Ops, g.honestEndorse(x, p, false))
+			} else {
+				h.Ops = append(h.Ops, g.honestCommit(x, p, false, nil))
+			}
+		}
+		same := g.ownSigVariant(f, others[len(others)-1], 0)
+		for _, x := range others[1+honest:] {
+			sg := same
+			if c.Intn(3) == 0 {
+				sg = g.ownSigVariant(f, x, 0)
+			}
+			kind := "commit"
+			if viaEndorse {
+				kind = "endorse"
+			}
+			h.Ops = append(h.Ops, Op{Kind: kind, Sender: f, Claimed: x, Proposer: p, Sig: sg})
+		}
+		if c.Intn(3) == 0 { // a proposal with a defective block signature as well
+			bad := []Sig{{Key: sigGarbage}, {Key: sigEmpty}, {Key: sigOneByte}, {Key: g.pos[f]}, {Key: g.pos[p], Hash: 1}}
+			op := g.proposal(p, 0)
+			op.Sig = bad[c.Intn(len(bad))]
+			h.Ops = append(h.Ops, op)
+		}
 	case 5:
 		// commitDone's second path: endorsements only (or nearly), several proposers, empty
 		// endorsements, endorsers outside the active endorser set
@@ -400,4 +484,45 @@ func genHist(c *hx.Ctx, i int) *Hist {
 		c.Rng.Shuffle(len(h.Ops), func(a, b int) { h.Ops[a], h.Ops[b] = h.Ops[b], h.Ops[a] })
 	}
 	return h
+}
+
+// unsignedProbes: deterministic probes of the receive gate (N = 7, quorum 5). One honest commit
+// (or endorsement) for proposer 0, then faulty peer 6 names the committers (endorsers) 2..5 in
+// messages whose own signature is absent / empty / one byte / garbage / by another peer / over
+// another digest. Every one of them must be dropped by msg.Verify; if they were counted, commit
+// would be declared with two verifiable signers.
+func unsignedProbes() []Hist {
+	variants := []struct {
+		name string
+		sig  func(claimed uint32) Sig
+	}{
+		{"absent-null", func(uint32) Sig { return Sig{Key: sigNil} }},
+		{"absent-missing", func(uint32) Sig { return Sig{Key: sigMissing} }},
+		{"empty", func(uint32) Sig { return Sig{Key: sigEmpty} }},
+		{"one-byte", func(uint32) Sig { return Sig{Key: sigOneByte} }},
+		{"garbage-65", func(uint32) Sig { return Sig{Key: sigGarbage} }},
+		{"signed-by-named-peer", func(cl uint32) Sig { return Sig{Key: int(cl)} }},
+		{"signed-other-digest", func(uint32) Sig { return Sig{Key: 6, Hash: 1} }},
+	}
+	var out []Hist
+	for _, kind := range []string{"commit", "endorse"} {
+		for _, v := range variants {
+			h := Hist{Label: "probe-unsigned/" + kind + "/" + v.name, N: 7, C: 2, Self: 0,
+				Peers: []uint32{0, 1, 2, 3, 4, 5, 6}, Connected: []uint32{1, 2, 3, 4, 5, 6}, Endorsers: []uint32{1, 2, 3, 4, 5}}
+			h.Ops = append(h.Ops, Op{Kind: kind, Sender: 1, Claimed: 1, Proposer: 0, Sig: Sig{Key: 1}})
+			if kind == "endorse" {
+				h.Ops = append(h.Ops, Op{Kind: "proposal", Sender: 0, Proposer: 0, Sig: Sig{Key: 0}})
+			}
+			for cl := uint32(2); cl <= 5; cl++ {
+				h.Ops = append(h.Ops, Op{Kind: kind, Sender: 6, Claimed: cl, Proposer: 0, Sig: v.sig(cl)})
+			}
+			out = append(out, h)
+		}
+	}
+	for _, sg := range []Sig{{Key: sigGarbage}, {Key: sigEmpty}, {Key: sigOneByte}, {Key: 3}, {Key: 0, Hash: 1}} {
+		out = append(out, Hist{Label: "probe-unsigned/proposal", N: 7, C: 2, Self: 1,
+			Peers: []uint32{0, 1, 2, 3, 4, 5, 6}, Connected: []uint32{0, 2, 3, 4, 5, 6}, Endorsers: []uint32{1, 2, 3, 4, 5},
+			Ops: []Op{{Kind: "proposal", Sender: 0, Proposer: 0, Sig: sg}}})
+	}
+	return out
 }
